@@ -115,6 +115,10 @@ def menu(inst):
     for name in inst.sources:
         for how in ("append", "clear", "setitem"):
             ops.append(("mutate_source", name, how))
+    for label, o, _, _ in inst.targets():
+        for name in public_names(o):
+            if isinstance(getattr(o, name), (bytearray, list, dict, set)):
+                ops.append(("mutate_returned", label, name))
     return ops
 
 
@@ -142,6 +146,24 @@ def apply(inst, op):
             return f"setattr({label}, {name!r}) raised {type(e).__name__} instead of AttributeError"
         else:
             return f"setattr({label}, {name!r}, {how}) succeeded: the attribute is assignable"
+    elif op[0] == "mutate_returned":
+        # whatever a public property hands out must not be a live, mutable part of the instance
+        _, label, name = op
+        target = next((o for l, o, _, _ in inst.targets() if l == label), None)
+        if target is None:
+            raise _Skip()
+        v = getattr(target, name)
+        try:
+            if isinstance(v, bytearray):
+                v.extend(b"\x07")
+            elif isinstance(v, list):
+                v.append(v[0] if v else 0)
+            elif isinstance(v, set):
+                v.add(0)
+            elif isinstance(v, dict):
+                v["x"] = 0
+        except Exception:  # noqa: BLE001
+            pass
     elif op[1] == "*":
         # every tracked caller-side list at once
         for name in list(inst.sources):
